@@ -326,12 +326,14 @@ Step(T, up, now, pkt, x, ifin) ==
          sid2 == IF seg2.cd THEN Xor(seg2.segid, Pfx(hf2.mac)) ELSE seg2.segid
          p2   == [p1 EXCEPT !.segs[k + 1].segid = sid2, !.ci = k + 1, !.ch = pkt.ch + 2]
      IN
-     IF ifin = 0 THEN Res(p1, "reject", x, 0, "segchange")     \* a host cannot start on a segment change
-     ELSE IF now > HopExpiry(seg2.ts, hf2.exp) THEN Res(p1, "reject", x, 0, "expired")
+     \* (Appendix B: the link-type table is applied to the ingress link NAMED BY THE HOP FIELD; a packet that a
+     \*  host of x starts at the crossover is judged like one that arrived over that link.  scionproto additionally
+     \*  refuses a segment change for packets from the internal interface - not demanded here.)
+     IF now > HopExpiry(seg2.ts, hf2.exp) THEN Res(p1, "reject", x, 0, "expired")
      ELSE IF seg2.ts > now THEN Res(p1, "reject", x, 0, "future")
      ELSE IF ~MacOk(x, seg2.segid, seg2.ts, hf2.exp, hf2.in, hf2.eg, hf2.mac) THEN Res(p1, "reject", x, 0, "mac")
      ELSE IF LinkAt(T, x, e) = 0 THEN Res(p1, "reject", x, e, "iface")
-     ELSE IF ~XoverAllowed(LinkTo(T, x, ifin), LinkTo(T, x, e)) THEN Res(p1, "reject", x, e, "segchange")
+     ELSE IF ~XoverAllowed(LinkTo(T, x, TIn(hf, seg.cd)), LinkTo(T, x, e)) THEN Res(p1, "reject", x, e, "segchange")
      ELSE Egress(T, up, p2, x, e)
   ELSE
      \* ---- forwarding inside one segment (or over the peering link)
@@ -361,12 +363,12 @@ Faults(T, up, now, pkt, x, ifin) ==
   IN IF final THEN base
      ELSE IF xover THEN
        LET seg2 == pkt.segs[k + 1]  hf2 == seg2.hops[1]  e == TOut(hf2, seg2.cd)  l == LinkAt(T, x, e) IN
-       base \cup (IF ifin = 0 THEN {"segchange"} ELSE {}) \cup
+       base \cup
                 (IF now > HopExpiry(seg2.ts, hf2.exp) THEN {"expired"} ELSE {}) \cup
                 (IF seg2.ts > now THEN {"future"} ELSE {}) \cup
                 (IF ~MacOk(x, seg2.segid, seg2.ts, hf2.exp, hf2.in, hf2.eg, hf2.mac) THEN {"mac"} ELSE {}) \cup
                 (IF l = 0 THEN {"iface"} ELSE IF ~up[l] THEN {"ifdown"} ELSE {}) \cup
-                (IF l # 0 /\ ifin # 0 /\ ~XoverAllowed(LinkTo(T, x, ifin), LinkTo(T, x, e)) THEN {"segchange"} ELSE {})
+                (IF l # 0 /\ ~XoverAllowed(LinkTo(T, x, TIn(hf, seg.cd)), LinkTo(T, x, e)) THEN {"segchange"} ELSE {})
      ELSE LET e == TOut(hf, seg.cd)  l == LinkAt(T, x, e) IN
        base \cup (IF l = 0 THEN {"iface"} ELSE IF ~up[l] THEN {"ifdown"} ELSE {})
 
